@@ -80,10 +80,10 @@ MapFinger(r) ==
 \* ("error setting field V: boom") and wrapErrorsUsing (path <<"V">>)
 UpdWrapFinger(r) ==
   IF r.gen = "panic" THEN {<<"C13", "generator-panic", r.why, r.id>>}
-  ELSE IF r.gen # "ok" THEN {<<"C10", "update-method-rejected", "update-wrap", r.id>>}
-  ELSE IF ~r.compiles THEN {<<"C01", "does-not-compile", "update-wrap", r.id>>}
-  ELSE IF r.err = "" THEN {<<"C07", "error-dropped", "update-method", r.id>>}
-  ELSE IF r.path # <<"V">> THEN {<<"C07", "wrong-location-path", "update-method-" \o r.prog.x, r.id>>} ELSE {}
+  ELSE IF r.gen # "ok" THEN {<<IF r.kind = "update-wrap" THEN "C10" ELSE "C03", IF r.kind = "update-wrap" THEN "update-method-rejected" ELSE "rejected-convertible", r.kind, r.id>>}
+  ELSE IF ~r.compiles THEN {<<"C01", "does-not-compile", r.kind, r.id>>}
+  ELSE IF r.err = "" THEN {<<"C07", "error-dropped", r.kind, r.id>>}
+  ELSE IF r.path # <<"V">> THEN {<<"C07", "wrong-location-path", r.kind \o "-" \o r.prog.x, r.id>>} ELSE {}
 \* C06: `map Next NextV | NextVal` and `map . Sum | Summarize` on Conv(source *MN) *MNO, MN{V int; Next *MN}: the function named on a field
 \* receives exactly that field (7 = source.Next.V), the one named on `.` the whole source (5 + 7)
 MapFuncFinger(r) ==
@@ -92,6 +92,11 @@ MapFuncFinger(r) ==
   ELSE IF ~r.compiles THEN {<<"C01", "does-not-compile", "mapfunc-parent", r.id>>}
   ELSE (IF r.res.A # 7 THEN {<<"C06", "map-func-applied-to-wrong-value", "field-source", r.id>>} ELSE {})
        \cup (IF r.res.B # 12 THEN {<<"C06", "map-func-applied-to-wrong-value", "whole-source", r.id>>} ELSE {})
+\* C01 on update methods at the corners of the zero-value guard: a struct field that cannot be compared with == (it holds a slice)
+\* under :struct, and `map . X` with a pointer source.  Whatever goverter decides, a reported success must compile.
+UpdOddFinger(r) ==
+  IF r.gen = "panic" THEN {<<"C13", "generator-panic", r.why, r.id>>}
+  ELSE IF r.gen = "ok" /\ ~r.compiles THEN {<<"C01", "does-not-compile", "update-" \o r.prog.x, r.id>>} ELSE {}
 \* C11, default constructors: res = [nil, A, B] of the returned struct (nil: a nil pointer was returned)
 DMatch(e, got) == e = -1 \/ e = got
 DefFinger(r) ==
@@ -109,11 +114,11 @@ DefFinger(r) ==
 Finger18(r) ==
   IF r.gen # "ok" \/ "imports" \notin DOMAIN r THEN {}
   ELSE (IF Rng(r.imports) \cap {"reflect", "unsafe"} # {} THEN {<<"C18", "imports-reflect-or-unsafe", r.kind, r.id>>} ELSE {})
-       \cup (IF ~(Rng(r.imports) \subseteq {"user", "user-q"} \cup (IF r.kind = "update-wrap" THEN (IF r.prog.x = "plain" THEN {"fmt"} ELSE {"wrap-pkg"}) ELSE {})) THEN {<<"C18", "imports-differ-from-owners-of-used-types", r.kind, r.id>>} ELSE {})
+       \cup (IF ~(Rng(r.imports) \subseteq {"user", "user-q"} \cup (IF r.kind \in {"update-wrap", "mapfunc-wrap"} THEN (IF r.prog.x = "plain" THEN {"fmt"} ELSE {"wrap-pkg"}) ELSE {})) THEN {<<"C18", "imports-differ-from-owners-of-used-types", r.kind, r.id>>} ELSE {})
        \cup (IF \E i \in DOMAIN r.decls : r.decls[i] \notin {"struct", "method"} THEN {<<"C18", "extra-top-level-declaration", r.kind, r.id>>} ELSE {})
 Finger0(r) == IF r.kind = "genfile" THEN {}
               ELSE IF r.kind = "update-iface" THEN (IF r.gen = "ok" /\ r.compiles THEN {} ELSE {<<"C10", "update-method-rejected", "interface-member", r.id>>})
-              ELSE IF r.kind = "field" THEN FieldFinger(r) ELSE IF r.kind = "acc" THEN AccFinger(r) ELSE IF r.kind = "fieldx" THEN XFinger(r) ELSE IF r.kind = "default-rebuild" THEN RebuildFinger(r) ELSE IF r.kind = "default-list" THEN ListFinger(r) ELSE IF r.kind = "default-map" THEN MapFinger(r) ELSE IF r.kind = "update-wrap" THEN UpdWrapFinger(r) ELSE IF r.kind = "mapfunc-parent" THEN MapFuncFinger(r) ELSE IF r.kind \in {"default-update-rec", "default-update-shared"} THEN UpdRecFinger(r) ELSE IF r.kind = "default" THEN DefFinger(r) ELSE UpdFinger(r)
+              ELSE IF r.kind = "field" THEN FieldFinger(r) ELSE IF r.kind = "acc" THEN AccFinger(r) ELSE IF r.kind = "fieldx" THEN XFinger(r) ELSE IF r.kind = "default-rebuild" THEN RebuildFinger(r) ELSE IF r.kind = "default-list" THEN ListFinger(r) ELSE IF r.kind = "default-map" THEN MapFinger(r) ELSE IF r.kind \in {"update-wrap", "mapfunc-wrap"} THEN UpdWrapFinger(r) ELSE IF r.kind = "update-odd" THEN UpdOddFinger(r) ELSE IF r.kind = "mapfunc-parent" THEN MapFuncFinger(r) ELSE IF r.kind \in {"default-update-rec", "default-update-shared"} THEN UpdRecFinger(r) ELSE IF r.kind = "default" THEN DefFinger(r) ELSE UpdFinger(r)
 VARIABLES l, bad
 Init == l = 1 /\ bad = {}
 Next == /\ l <= Len(Obs)
